@@ -20,6 +20,9 @@ pub fn generics(
     let mut types = HashSet::new();
     let mut fields = HashSet::new();
     let mut functions = HashSet::new();
+    // Placeholders for imported names; added last, so that a class which is defined in one of
+    // the files wins over a placeholder of the same name whatever the order of the files.
+    let mut imported = vec![];
 
     for file in files {
         match &file.node {
@@ -44,9 +47,7 @@ pub fn generics(
                             from,
                             import,
                             alias,
-                        } => from_import(from, import, alias)?.into_iter().for_each(|t| {
-                            types.insert(t);
-                        }),
+                        } => imported.extend(from_import(from, import, alias)?),
                         _ => {}
                     }
                 }
@@ -54,6 +55,10 @@ pub fn generics(
             _ => return Err(vec![TypeErr::new(file.pos, "Expected file")]),
         }
     }
+
+    imported.into_iter().for_each(|t| {
+        types.insert(t);
+    });
 
     Ok((types, fields, functions))
 }
